@@ -50,6 +50,9 @@ add("g12s_A1_sign", g12s_ctx(a1) + " d == NumBE(%s) k == NumBE(%s) e == G12sE(%s
 add("g12s_A1_verify", g12s_ctx(a1) + " IN G12sVerify(E, P, q, %s, %s, 256, <<NumBE(%s), NumBE(%s)>>)" % (hexo(h1), hexo(s1), hexo(Q1[0]), hexo(Q1[1])))
 bad = bytearray(bytes.fromhex(s1)); bad[0] ^= 1
 add("g12s_A1_altered", g12s_ctx(a1) + " IN ~G12sVerify(E, P, q, %s, %s, 256, <<NumBE(%s), NumBE(%s)>>)" % (hexo(h1), seq(bad), hexo(Q1[0]), hexo(Q1[1])))
+# the verification equation cannot tell e from q - e (C becomes -C): a hash value H' = q - (H mod q) verifies as well
+qa1 = le(a1["q"]); hneg = (qa1 - int(h1, 16) % qa1) % qa1
+add("g12s_A1_negated_hash", g12s_ctx(a1) + " IN G12sVerify(E, P, q, %s, %s, 256, <<NumBE(%s), NumBE(%s)>>)" % (seq(hneg.to_bytes(32, "big")), hexo(s1), hexo(Q1[0]), hexo(Q1[1])))
 a2 = std("g12s", "1.2.643.7.1.2.1.2.0")
 d2 = "0BA6048AADAE241BA40936D47756D7C93091A0E8514669700EE7508E508B102072E8123B2200A0563322DAD2827E2714A2636B7BFD18AADFC62967821FA18DD4"
 h2 = "3754F3CFACC9E0615C4F4A7C4D8DAB531B09B6F9C170C533A71D147035B0C5917184EE536593F4414339976C647C5D5A407ADEDB1D560C4FC6777D2972075B8C"
@@ -124,7 +127,7 @@ out = ["--------------------------- MODULE SchemeVectors -----------------------
        "EXTENDS Schemes, FiniteSets, TLC, IOUtils", ""]
 for n, e in V:
     out.append("V_%s(dummy) == %s" % (n, e))
-HEAVY = ["g12s_A1_pubkey", "g12s_A1_verify", "g12s_A1_altered", "bign96_verify_det", "bign96_altered", "dstu_B1_order", "dstu_B1_verify",
+HEAVY = ["g12s_A1_negated_hash", "g12s_A1_pubkey", "g12s_A1_verify", "g12s_A1_altered", "bign96_verify_det", "bign96_altered", "dstu_B1_order", "dstu_B1_verify",
          "dstu_B1_pubkey", "pfok_symmetry"]
 out += ["", "AllNames == {%s}" % ", ".join('"%s"' % n for n in names),
         "\\* VSEL=quick leaves out the vectors that cost several scalar multiplications (all of them run in the thorough tier)",
